@@ -167,15 +167,17 @@ def a2_diagnosis(arg, scheme, V2, m):
     return {"err_without_a2": err, "a2_loss": bool(err < 1e-9)}
 
 
-def eval_case(ctx, V, scheme, fam, shape1d=False):
-    """C03 on the implementation for one isometry; True when it holds."""
+def eval_case(ctx, V, scheme, fam, shape1d=False, dtype="complex"):
+    """C03 on the implementation for one isometry; True when it holds.  dtype = 'real': a real-valued isometry handed over as float64"""
     from qclib.isometry import decompose
     V = np.asarray(V, dtype=complex)
     V2 = V.reshape(len(V), -1)
     n, m = int(np.log2(V2.shape[0])), int(np.log2(V2.shape[1]))
     case = {"function": "decompose", "scheme": scheme, "n": n, "m": m, "family": fam, "vector_input": bool(shape1d),
-            "isometry": jsonable(V2)}
+            "isometry": jsonable(V2), "dtype": dtype}
     arg = V2[:, 0].copy() if shape1d else V2.copy()
+    if dtype == "real":
+        arg = np.array(np.real(arg), dtype=float)
     try:
         circ = decompose(arg, scheme)
         op = Operator(circ).data
@@ -210,6 +212,9 @@ def run_isometry(ctx, V, fam, n, m):
         ctx.count(f"{scheme}:{fam}", key=(scheme, n, m, key_v), nontrivial=n >= 2,
                   sample={"scheme": scheme, "n": n, "m": m, "column0": jsonable(V[:4, 0])} if (n, m) == (3, 1) else None)
         eval_case(ctx, V, scheme, fam)
+        if float(np.abs(np.imag(V)).max()) == 0.0 and n <= 4:
+            ctx.count(f"{scheme}:{fam}:real_dtype", key=(scheme, n, m, key_v, "real"), nontrivial=n >= 2)
+            eval_case(ctx, V, scheme, fam, dtype="real")
         if m == 0:      # the documented 1-d (state vector) input form
             ctx.count(f"{scheme}:{fam}:1d", key=(scheme, n, "1d", key_v), nontrivial=n >= 2)
             eval_case(ctx, V, scheme, fam, shape1d=True)
@@ -263,4 +268,5 @@ def evaluate(ctx, deep):
 
 def replay(ctx, case):
     V = unjson_array(case["isometry"]).astype(complex)
-    return eval_case(ctx, V, case["scheme"], case.get("family", "replay"), shape1d=case.get("vector_input", False))
+    return eval_case(ctx, V, case["scheme"], case.get("family", "replay"), shape1d=case.get("vector_input", False),
+                     dtype=case.get("dtype", "complex"))
